@@ -25,10 +25,10 @@ UNIT = "bc"
 
 PINNED = [
     "encode_decode", "decode_unused_is_error", "decode_total_on_valid_ops", "encode_total",
-    "wf_chunk_sound", "wf_chunk_reach_instruction_start",
+    "wf_chunk_sound", "wf_chunk_reach_instruction_start", "depths_ok_sound",
 ]
 
-HEADER = ("From KV.bc Require Import Instr GenOps Decode AbsVM Wf BcRun.\n"
+HEADER = ("From KV.bc Require Import Instr GenOps Decode AbsVM Wf Wf5 BcRun.\n"
           "From Coq Require Import List NArith. Import ListNotations.\nOpen Scope N_scope.\n")
 
 BIG = 6000          # chunks above this many bytes: verifier + decoder are evaluated in separate shards
@@ -184,12 +184,10 @@ def clause5(instrs):
     at = {i[0]: k for k, i in enumerate(instrs)}
     problems = []
     # function body extents
+    # function bodies are entered only from Function instructions that are themselves reachable
     entries = [0]
-    for i in instrs:
-        if i[1] == "Function":
-            entries.append(i[3])
     skip_to = {i[0]: i[3] + i[2]["size"] for i in instrs if i[1] == "Function"}
-    for entry in entries:
+    for entry in entries:       # grows while iterating
         state = {entry: (0, 0, 0)}
         work = [entry]
         while work:
@@ -200,6 +198,8 @@ def clause5(instrs):
             name, f, nxt = ins[1], ins[2], ins[3]
             sq, st, tr = state[pc]
             succ = []
+            if name == "Function" and nxt not in entries:
+                entries.append(nxt)
             if name == "SequenceStart":
                 sq += 1
             elif name in ("SequencePush", "SequencePushN"):
@@ -226,7 +226,7 @@ def clause5(instrs):
                     problems.append(f"ip {pc}: TryEnd with no catch handler on this path")
                 tr = max(0, tr - 1)
             elif name == "Return":
-                if (sq, st, tr) != (0, 0, 0):
+                if (sq, st) != (0, 0):        # the catch stack belongs to the frame and goes with it
                     problems.append(f"ip {pc}: Return with (sequence, string, try) depth {(sq, st, tr)}")
             if name == "Jump":
                 succ.append(nxt + f["offset"])
@@ -781,6 +781,7 @@ def run(tier, seed):
     failures = []       # (size, case index, what, detail)
     jump_offsets = []
     miscal = []
+    py5 = {}             # case index -> problems found by the Python clause-5 dataflow
     other_panics = []
     run_fail = {}        # case index -> internal fault observed when the program was run
     known_wf = set()     # cases whose chunk the verifier rejects and that lie in a known class
@@ -828,15 +829,9 @@ def run(tier, seed):
                     other_panics.append(f"{rr.get('at')}: {rr['panic'][:80]}")
             elif rr.get("result", "").startswith("EInternal"):
                 run_fail[i] = ("run-internal-error", rr)
-        # clause 5 (dataflow on the real instruction list)
+        # clause 5, independent Python dataflow on the real instruction list (cross-check of depths_ok)
         if r.get("instrs") and len(r["instrs"]) < 30000:
-            p5 = clause5(r["instrs"])
-            if p5:
-                k = known_class(c, r, "clause5")
-                if k:
-                    chk.known(KNOWN_TEXT[k])
-                else:
-                    failures.append((len(c["src"]), i, "clause5", {"problems": p5[:5]}))
+            py5[i] = clause5(r["instrs"])
         if c["origin"] == "jump-scaled" and c.get("intended"):
             names = ("JumpBack",) if c["kind"] == "back" else ("JumpIfFalse", "Function")
             offs = [ins[2].get("offset", ins[2].get("size")) for ins in r.get("instrs", []) if ins[1] in names]
@@ -849,6 +844,7 @@ def run(tier, seed):
     chk.log(f"D-predicates done at {time.time() - t0:.0f}s")
     # ---- model on the real bytes
     disagreements = []
+    d5_disagree = []
     wf_fail = []
     todo = [i for i, r in enumerate(res) if "bytes" in r]
     if model_ok and info:
@@ -878,7 +874,21 @@ def run(tier, seed):
         for i in todo:
             if i not in vals:
                 continue
-            decoded, (wf, bad) = vals[i]
+            # Coq prints ((a, b), c) as (a, b, c)
+            decoded, (wf, bad, (d5, bad5)) = vals[i]
+            if not d5:
+                d5detail = {"verifier": "depths_ok = false (clause 5)", "first_rejected": dict(zip(
+                    ["ip", "op", "sequence_depth", "string_depth", "try_depth"], bad5)),
+                    "python_dataflow_says": py5.get(i, [])[:3]}
+                if len(bad5) >= 2 and bad5[1] < 256:
+                    d5detail["first_rejected"]["op"] = info["ops"][bad5[1]]
+                k = known_class(cases[i], res[i], "clause5")
+                if k:
+                    chk.known(KNOWN_TEXT[k])
+                else:
+                    wf_fail.append((len(cases[i]["src"]), i, "clause5", d5detail))
+            if i in py5 and wf and bool(py5[i]) == d5:
+                d5_disagree.append(f"{cases[i].get('tag') or cases[i]['origin']}: depths_ok={d5}, python dataflow: {py5[i][:2]}")
             why = compare_streams(info, res[i], decoded) if decoded is not None else None
             if why:
                 disagreements.append((len(cases[i]["src"]), i, why))
@@ -895,6 +905,8 @@ def run(tier, seed):
                                      f"run: {json.dumps(res[i].get('run'))[:120]}")
                 else:
                     wf_fail.append((len(cases[i]["src"]), i, "wf_chunk", detail))
+        chk.oblige("corr:clause-5 check depths_ok (Coq) agrees with the independent Python dataflow on every chunk",
+                   not d5_disagree, "; ".join(d5_disagree[:4]))
         chk.oblige("corr:decoder model vs koto_bytecode::InstructionReader (every instruction of every chunk)",
                    not disagreements, f"{len(disagreements)} chunks disagree")
     else:
@@ -982,17 +994,17 @@ def replay(path, args):
         wf_known = False
         if ("panic" in rr and C05_FAULT_RE.search(rr["panic"])) or rr.get("result", "").startswith("EInternal"):
             run_bad = f"internal fault when run: {rr}"
-        p5 = clause5(r.get("instrs", []))
-        if p5 and not known_class(case, r, "clause5"):
-            bad.append(f"clause 5: {p5[:3]}")
         okb, _ = C.coq_build(UNIT, ["BcRun.vo"])
         if okb:
             v = C.coq_eval(UNIT, HEADER, [f"bc_out {coq_bytes(r['bytes'])} {r['nconsts']}"], tag="c05r")[0]
             why = compare_streams(info, r, v[0])
             if why:
                 bad.append("decoder model disagrees: " + why)
-            if not v[1][0]:
-                b = v[1][1]
+            wf_ok, wf_bad, (d5, bad5) = v[1]
+            if not d5 and not known_class(case, r, "clause5"):
+                bad.append(f"depths_ok = false (clause 5): {bad5}")
+            if not wf_ok:
+                b = wf_bad
                 d = {"bad_op": info["ops"][b[1]] if len(b) == 2 and b[1] < 256 else "scan"}
                 if not known_class(case, r, "wf", d):
                     bad.append(f"wf_chunk = false (first rejected instruction at ip {b[0] if b else '?'}, {d['bad_op']})")
